@@ -206,6 +206,25 @@ func (t *Timed) trigger(kind string, n *Node, count int) {
 			continue
 		}
 		s.done = true
+		if s.Kind == "crash" { // the validator goes down right after that broadcast and comes back with empty state
+			now := w.Clock.Sub(w.Cfg.Epoch)
+			if c := w.Nodes[s.Node]; c != nil && !c.Crashed {
+				c.Crashed, c.Faulty = true, true
+				delete(t.resetAt, c)
+				w.Stat("crash")
+				w.Stat("triggered_crash")
+				w.act("crash(%d) (%s of node %d #%d) for %s", c.ID, kind, n.ID, count, s.Dur)
+				t.O.Plan = append(t.O.Plan, Sched{At: now + s.Dur, Kind: "restart", Node: s.Node})
+				if now+s.Dur > t.LastFault {
+					t.LastFault = now + s.Dur
+				}
+				t.horizonSet = false
+				if t.O.HealBound {
+					t.O.Horizon = 1 << 62
+				}
+			}
+			continue
+		}
 		w.Cut = map[int]bool{}
 		for _, id := range s.Set {
 			w.Cut[id] = true
